@@ -29,7 +29,8 @@ theorem retry_same_outcome (P : Params) (n n' : Node) (b : Block)
   constructor <;> (split <;> simp_all)
 
 /-- a swallowed failure keeps the partial effects it made before failing (this is what makes the
-    burn-address zeroing and the developer payouts non-transparent) -/
+    burn-address zeroing non-transparent; the developer payouts and the status updates propagate
+    their errors since fixes 6e0a94f and 805da50) -/
 theorem swallow_keeps_partial_effects {σ} (m : M σ Unit) (s s' : σ) (e : Failure)
     (h : m s = .fail e s') : M.swallow m s = .ok false s' := by
   unfold M.swallow; rw [h]
@@ -39,17 +40,13 @@ theorem swallow_keeps_partial_effects {σ} (m : M σ Unit) (s s' : σ) (e : Fail
     ones. A new swallowed error anywhere under DBlockSync breaks this obligation. -/
 theorem swallow_sites_are_the_known_ones :
     Generated.discardedErrors =
-      ["node/sync.go:DBlockSync:NullifyBurnAddress", "node/sync.go:DBlockSync:NullifyBurnAddress",
-       "node/sync.go:ApplyTransactionBatchesInHolding:SetTransactionHistoryExecuted",
-       "node/sync.go:ApplyTransactionBatchesInHolding:SetTransactionHistoryExecuted",
-       "node/sync.go:ApplyTransactionBatchesInHolding:SetTransactionHistoryExecuted",
-       "node/sync.go:ApplyTransactionBlock:SetTransactionHistoryExecuted"] ∧
+      ["node/sync.go:DBlockSync:NullifyBurnAddress", "node/sync.go:DBlockSync:NullifyBurnAddress"] ∧
     Generated.logOnlyErrors =
       ["node/opr.go:Grade:err != nil", "node/spr.go:GradeS:err != nil",
        "node/sync.go:NullifyMintedTokens:err != nil",
        "node/sync.go:NullifyBurnAddress:err != nil", "node/sync.go:NullifyBurnAddress:err != nil",
        "node/sync.go:NullifyBurnAddress:err != nil", "node/sync.go:NullifyBurnAddress:err != nil",
-       "node/sync.go:SyncBlock:err != nil", "node/sync.go:recordBatch:err != nil"] ∧
+       "node/sync.go:recordBatch:err != nil"] ∧
     Generated.blankAssignedErrors =
       ["node/conversions/conversionlimit.go:Refund:Convert", "node/conversions/conversionlimit.go:Refund:Convert",
        "node/sync.go:recordPegnetRequests:Convert"] := by
